@@ -798,9 +798,17 @@ class DirectoryRecord:
                     if not allow_duplicate:
                         raise pycdlibexception.PyCdlibInvalidInput('Failed adding duplicate name to parent')
 
-                    self.children[index].data_continuation = child
-                    self.children[index].file_flags |= (1 << self.FILE_FLAG_MULTI_EXTENT_BIT)
+                    # bisect_left found the first record of this name.  A
+                    # very large file may already consist of several records,
+                    # which directly follow each other; the new child continues
+                    # the last one of them.
+                    last_part = self.children[index]
                     index += 1
+                    while last_part.data_continuation is not None:
+                        last_part = last_part.data_continuation
+                        index += 1
+                    last_part.data_continuation = child
+                    last_part.file_flags |= (1 << self.FILE_FLAG_MULTI_EXTENT_BIT)
         self.children.insert(index, child)
 
         if child.rock_ridge is not None and not child.is_dot() and not child.is_dotdot():
